@@ -197,7 +197,7 @@ func appendSnapshotConstants(b []byte, s *slip.Scope) []byte {
 			form := slip.List{
 				slip.Symbol("defconstant"),
 				slip.Symbol(strings.Join([]string{c.Pkg.Name, c.String()}, "::")),
-				c.Value(),
+				ppValue(c.Value()),
 			}
 			if 0 < len(c.Doc) {
 				form = append(form, slip.String(c.Doc))
@@ -295,6 +295,11 @@ func ppValue(v slip.Object) (pv slip.Object) {
 	switch tv := v.(type) {
 	case slip.List:
 		if 0 < len(tv) {
+			pv = slip.List{slip.Symbol("quote"), tv}
+		}
+	case slip.Symbol:
+		// A symbol as a value is data, unquoted it would be read as a variable.
+		if 0 < len(tv) && tv[0] != ':' {
 			pv = slip.List{slip.Symbol("quote"), tv}
 		}
 	case *slip.Package:
